@@ -606,7 +606,15 @@ func (ex *Exec) execInstr(fr *frame, in ssa.Instruction) {
 	case *ssa.UnOp:
 		fr.env[i] = ex.unop(fr, i)
 	case *ssa.BinOp:
-		fr.env[i] = ex.binop(i.Op, ex.get(fr, i.X), ex.get(fr, i.Y), i.X.Type())
+		bx, by := ex.get(fr, i.X), ex.get(fr, i.Y)
+		if _, isStr := bx.(Str); isStr {
+			switch by.(type) {
+			case Str, Rope:
+			default:
+				panic(unsupported(fmt.Sprintf("string %s %T at %s", i.Op, by, ex.prog.Fset.Position(i.Pos()))))
+			}
+		}
+		fr.env[i] = ex.binop(i.Op, bx, by, i.X.Type())
 	case *ssa.Store:
 		ex.store(ex.get(fr, i.Addr), ex.get(fr, i.Val))
 	case *ssa.FieldAddr:
@@ -1601,7 +1609,11 @@ func (ex *Exec) builtin(b *ssa.Builtin, args []Value, c *ssa.CallCommon) Value {
 		}
 		return Iface{}
 	}
-	panic(unsupported("builtin " + b.Name()))
+	where := ""
+	if th := ex.sch.cur; th != nil && len(th.stack) > 0 {
+		where = " in " + th.stack[len(th.stack)-1].String()
+	}
+	panic(unsupported("builtin " + b.Name() + where))
 }
 
 // isPureScalar reports whether fn is a loop-free function over scalars with no effects
@@ -1679,7 +1691,15 @@ func (ex *Exec) evalMerged(fr *frame, b, prev *ssa.BasicBlock) Value {
 				}
 			}
 		case *ssa.BinOp:
-			fr.env[i] = ex.binop(i.Op, ex.get(fr, i.X), ex.get(fr, i.Y), i.X.Type())
+			bx, by := ex.get(fr, i.X), ex.get(fr, i.Y)
+		if _, isStr := bx.(Str); isStr {
+			switch by.(type) {
+			case Str, Rope:
+			default:
+				panic(unsupported(fmt.Sprintf("string %s %T at %s", i.Op, by, ex.prog.Fset.Position(i.Pos()))))
+			}
+		}
+		fr.env[i] = ex.binop(i.Op, bx, by, i.X.Type())
 		case *ssa.UnOp:
 			fr.env[i] = ex.unop(fr, i)
 		case *ssa.Convert:
